@@ -515,6 +515,12 @@ SELECTED += [
 X6_ELF_IMPORT = "PkgModel.PyElf"
 # `self._read(fmt)` is the primitive `PyElf.read_struct` only while `ELFFile._read` has this source (sha256 over its ast)
 X6_ELF_READ_GUARD = "ad49ef43b6d602e7ae6cbfa4457d008915cdfaaef611d7ec4df2b98d8bd0fc3f"
+# x6: metadata (C17): the `EmailMessage` of `_process_description_content_type` answers through the oracle, as `Meta.Oracle.ctype`:
+# `message["content-type"] = value` is the call `EmailMessage.set_content_type(value)` whose answer is the pair
+# `(get_content_type().lower(), dict of the header's params)` (or the exception the setter raised)
+SELECTED += [("_Validator._process_description_content_type", "packaging.metadata", "_Validator._process_description_content_type")]
+X6_FUNCTIONS |= {("packaging.metadata", "_Validator._process_description_content_type")}
+ORACLE_CALLS["packaging.metadata"] |= {"EmailMessage.set_content_type"}
 # --- x6 end -----------------------------------------------------------------------------------------------------------
 
 
@@ -3723,6 +3729,10 @@ class Fn:
                 return False, f"PyPlat.gdict_getitem [{rows}] Option.none {self.val(a[1])}"
             if f.id == "__x6_dict_get":
                 return False, f"PyRt.dict_get {self.val(a[0])} {self.val(a[1])} {self.val(a[2])}"
+            if f.id == "__x6_ext":
+                if a[0].value not in self.x3_oracles():
+                    raise Unsupported(f"{a[0].value} is not an oracle of this module")
+                return False, f'PyRt.ext_call {self.use_ext()} "{a[0].value}" [' + ", ".join(self.val(x) for x in a[1:]) + "]"
             if f.id == "__x6_bitand":
                 return False, f"PyPlat.bitand {self.val(a[0])} {self.val(a[1])}"
             r = self.x6_elf_call(e, kws)
@@ -3795,6 +3805,8 @@ class _X6Rewrite(ast.NodeTransformer):
                 idx.setdefault(fld, set()).add(i)
         self.nt_index = {fld: next(iter(s)) for fld, s in idx.items() if len(s) == 1}
         self.elf = fn.pyfunc.__module__ == "packaging._elffile"
+        self.md = fn.pyfunc.__module__ == "packaging.metadata"
+        self.msg_locals = set()
         self.me = fn.node.args.args[0].arg if fn.node.args.args else None
         self.in_return = False
 
@@ -3812,7 +3824,9 @@ class _X6Rewrite(ast.NodeTransformer):
         for name, vals in self.const_locals.items():
             if len(vals) == 1 and isinstance(vals[0], ast.Set) and all(isinstance(x, ast.Constant) and isinstance(x.value, (str, int))
                                                                      for x in vals[0].elts):
-                uses = [n for n in ast.walk(node) if isinstance(n, ast.Name) and n.id == name and isinstance(n.ctx, ast.Load)]
+                dead = {id(x) for r in ast.walk(node) if isinstance(r, ast.Raise) for x in ast.walk(r)}    # messages are dropped
+                uses = [n for n in ast.walk(node) if isinstance(n, ast.Name) and n.id == name and isinstance(n.ctx, ast.Load)
+                        and id(n) not in dead]
                 ok = {id(c.comparators[0]) for c in ast.walk(node) if isinstance(c, ast.Compare) and len(c.ops) == 1
                       and isinstance(c.ops[0], (ast.In, ast.NotIn))}
                 if uses and all(id(u) in ok for u in uses):
@@ -3820,6 +3834,15 @@ class _X6Rewrite(ast.NodeTransformer):
                         if isinstance(a, ast.Assign) and a.value is vals[0]:
                             a.value = ast.copy_location(ast.Tuple(elts=list(vals[0].elts), ctx=ast.Load()), vals[0])
         self.seek_first = self.elf and node.name != "__init__" and self.seeks_before_reads(node.body)
+        if self.md:
+            for name, vals in self.const_locals.items():
+                if len(vals) == 1 and isinstance(vals[0], ast.Call) and _dotted(vals[0].func) == ["email", "message", "EmailMessage"] \
+                        and not vals[0].args and not vals[0].keywords and self.is_global("email"):
+                    stores = [n for n in ast.walk(node) if isinstance(n, ast.Subscript) and isinstance(n.ctx, ast.Store)
+                              and isinstance(n.value, ast.Name) and n.value.id == name]
+                    if len(stores) == 1 and isinstance(stores[0].slice, ast.Constant) and stores[0].slice.value == "content-type":
+                        self.msg_locals.add(name)
+            self._params_locals = self.params_locals_scan()
         node.body = self.block(node.body)
         return node
 
@@ -3885,6 +3908,22 @@ class _X6Rewrite(ast.NodeTransformer):
         r = self.x6_visit_assign(node)
         return pre + (r if isinstance(r, list) else [r]) if pre else r
 
+    def params_locals(self):
+        return getattr(self, "_params_locals", set())
+
+    def params_locals_scan(self):
+        """locals bound (in a parallel assignment) to `message["content-type"].params`: dicts of strings"""
+        out = set()
+        for n in ast.walk(self.fn.node):
+            if isinstance(n, ast.Assign) and len(n.targets) == 1 and isinstance(n.targets[0], ast.Tuple) \
+                    and isinstance(n.value, ast.Tuple) and len(n.value.elts) == len(n.targets[0].elts):
+                for t, v in zip(n.targets[0].elts, n.value.elts):
+                    if isinstance(t, ast.Name) and isinstance(v, ast.Attribute) and v.attr == "params" \
+                            and isinstance(v.value, ast.Subscript) and isinstance(v.value.value, ast.Name) \
+                            and v.value.value.id in self.msg_locals:
+                        out.add(t.id)
+        return out
+
     def x6_visit_assign_done(self, node):
         node.targets = [self.visit(t) for t in node.targets]
         return node
@@ -3944,6 +3983,16 @@ class _X6Rewrite(ast.NodeTransformer):
         return node
 
     def x6_visit_assign(self, node):
+        if self.md and len(node.targets) == 1:
+            t = node.targets[0]
+            if isinstance(t, ast.Name) and t.id in self.msg_locals and isinstance(node.value, ast.Call) \
+                    and _dotted(node.value.func) == ["email", "message", "EmailMessage"]:
+                node.value = ast.copy_location(ast.Constant(None), node.value)      # nothing is known of the message yet
+                return node
+            if isinstance(t, ast.Subscript) and isinstance(t.value, ast.Name) and t.value.id in self.msg_locals:
+                v = self.visit(node.value)
+                return ast.copy_location(ast.Assign(targets=[ast.Name(id=t.value.id, ctx=ast.Store())],
+                                                    value=self.call("__x6_ext", ast.Constant("EmailMessage.set_content_type"), v)), node)
         node = self.generic_visit(node)
         if len(node.targets) == 1 and isinstance(node.targets[0], (ast.Tuple, ast.List)):
             elts = node.targets[0].elts
@@ -3967,6 +4016,9 @@ class _X6Rewrite(ast.NodeTransformer):
         if not isinstance(node.ctx, ast.Load):
             return node
         b = node.value
+        if self.md and node.attr == "params" and isinstance(b, ast.Subscript) and isinstance(b.value, ast.Name) \
+                and b.value.id in self.msg_locals and isinstance(b.slice, ast.Constant) and b.slice.value == "content-type":
+            return ast.copy_location(ast.Subscript(value=b.value, slice=ast.Constant(1), ctx=ast.Load()), node)
         if isinstance(b, ast.Name) and self.is_global(b.id):
             import enum
             v = self.g[b.id]
@@ -3983,6 +4035,15 @@ class _X6Rewrite(ast.NodeTransformer):
     def visit_Call(self, node):
         node = self.generic_visit(node)
         f = node.func
+        if self.md and self.msg_locals:
+            if isinstance(f, ast.Attribute) and f.attr == "lower" and not node.args and not node.keywords \
+                    and isinstance(f.value, ast.Call) and isinstance(f.value.func, ast.Attribute) \
+                    and f.value.func.attr == "get_content_type" and isinstance(f.value.func.value, ast.Name) \
+                    and f.value.func.value.id in self.msg_locals and not f.value.args and not f.value.keywords:
+                return ast.copy_location(ast.Subscript(value=f.value.func.value, slice=ast.Constant(0), ctx=ast.Load()), node)
+            if isinstance(f, ast.Attribute) and f.attr == "get" and len(node.args) == 2 and not node.keywords \
+                    and isinstance(f.value, ast.Name) and f.value.id in self.params_locals():
+                return ast.copy_location(self.call("__x6_dict_get", f.value, node.args[0], node.args[1]), node)
         if self.elf:
             if self.is_file_call(node, "read") and len(node.args) == 1 and self.in_return:
                 return ast.copy_location(self.call("__x6_read", ast.Name(id=self.me, ctx=ast.Load()), node.args[0]), node)
